@@ -21,8 +21,18 @@
 #include "awkward/array/VirtualArray.h"
 #include "awkward/Iterator.h"
 
-static thread_local AkbRes g_res;
-AkbRes& akb_res() { return g_res; }
+static thread_local std::vector<AkbRes*> g_stack;
+static thread_local AkbRes g_last;
+static thread_local AkbRes g_idle;
+AkbRes& akb_res() { return g_stack.empty() ? g_idle : *g_stack.back(); }
+AkbRes& akb_last() { return g_last; }
+AkbFrame::AkbFrame() { g_stack.push_back(new AkbRes()); }
+AkbFrame::~AkbFrame() {
+  AkbRes* top = g_stack.back();
+  g_stack.pop_back();
+  g_last = std::move(*top);
+  delete top;
+}
 
 ///////////////////////////////////////////////////////////////// result helpers
 
@@ -686,22 +696,22 @@ void akb_release_type(void* h) { delete reinterpret_cast<AkbType*>(h); }
 int64_t akb_use_count(void* h) { return (int64_t)reinterpret_cast<AkbContent*>(h)->p.use_count(); }
 
 // result accessors
-const char* akb_err_class() { return akb_res().err_class.c_str(); }
-const char* akb_err_msg() { return akb_res().err_msg.c_str(); }
-int64_t akb_res_ni() { return (int64_t)akb_res().i.size(); }
-void akb_res_ints(int64_t* out) { AkbRes& R = akb_res(); if (!R.i.empty()) std::memcpy(out, R.i.data(), R.i.size() * sizeof(int64_t)); }
-int64_t akb_res_nd() { return (int64_t)akb_res().d.size(); }
-void akb_res_doubles(double* out) { AkbRes& R = akb_res(); if (!R.d.empty()) std::memcpy(out, R.d.data(), R.d.size() * sizeof(double)); }
-int64_t akb_res_ns() { return (int64_t)akb_res().s.size(); }
-int64_t akb_res_slen(int64_t k) { return (int64_t)akb_res().s[(size_t)k].size(); }
-const char* akb_res_sptr(int64_t k) { return akb_res().s[(size_t)k].data(); }
-int64_t akb_res_nh() { return (int64_t)akb_res().h.size(); }
-void* akb_res_h(int64_t k) { return akb_res().h[(size_t)k]; }
-const char* akb_res_hc(int64_t k) { return akb_res().hc[(size_t)k].c_str(); }
-int64_t akb_res_nx() { return (int64_t)akb_res().x.size(); }
-int64_t akb_res_xdtype(int64_t k) { return akb_res().x[(size_t)k].dtype; }
-int64_t akb_res_xlen(int64_t k) { return (int64_t)akb_res().x[(size_t)k].bytes.size(); }
-const char* akb_res_xptr(int64_t k) { return akb_res().x[(size_t)k].bytes.data(); }
+const char* akb_err_class() { return akb_last().err_class.c_str(); }
+const char* akb_err_msg() { return akb_last().err_msg.c_str(); }
+int64_t akb_res_ni() { return (int64_t)akb_last().i.size(); }
+void akb_res_ints(int64_t* out) { AkbRes& R = akb_last(); if (!R.i.empty()) std::memcpy(out, R.i.data(), R.i.size() * sizeof(int64_t)); }
+int64_t akb_res_nd() { return (int64_t)akb_last().d.size(); }
+void akb_res_doubles(double* out) { AkbRes& R = akb_last(); if (!R.d.empty()) std::memcpy(out, R.d.data(), R.d.size() * sizeof(double)); }
+int64_t akb_res_ns() { return (int64_t)akb_last().s.size(); }
+int64_t akb_res_slen(int64_t k) { return (int64_t)akb_last().s[(size_t)k].size(); }
+const char* akb_res_sptr(int64_t k) { return akb_last().s[(size_t)k].data(); }
+int64_t akb_res_nh() { return (int64_t)akb_last().h.size(); }
+void* akb_res_h(int64_t k) { return akb_last().h[(size_t)k]; }
+const char* akb_res_hc(int64_t k) { return akb_last().hc[(size_t)k].c_str(); }
+int64_t akb_res_nx() { return (int64_t)akb_last().x.size(); }
+int64_t akb_res_xdtype(int64_t k) { return akb_last().x[(size_t)k].dtype; }
+int64_t akb_res_xlen(int64_t k) { return (int64_t)akb_last().x[(size_t)k].bytes.size(); }
+const char* akb_res_xptr(int64_t k) { return akb_last().x[(size_t)k].bytes.data(); }
 
 // Heap churn for C12: allocate, poison and free many blocks of the sizes just used, so that a result
 // that still points into a released input buffer reads poison (rel) or trips ASan (san).
